@@ -17,13 +17,41 @@ Clause(name, ok) == ok \/ PrintT(<<"V", i, name>>)
 EligiblePairs == {<<d, a>> : d \in {k \in 1..Len(C.dtx) : InSpan(C.dtx[k], C.lb)}, a \in {k \in 1..Len(C.atx) : InSpan(C.atx[k], C.rb)}}
 GotPairs == {<<C.records[k].d, C.records[k].a>> : k \in 1..Len(C.records)}
 
+(***************************************************************************)
+(* Small variants of the donor and acceptor transcripts (C.dvars[d],        *)
+(* C.avars[a]: transcript coordinates) on the fused sequence.  A donor       *)
+(* variant is carried when it ends `margin` bases or more before the end of  *)
+(* the donor's exonic part; an acceptor variant when it starts `margin`      *)
+(* bases or more after the first exonic acceptor base kept (the acceptor's   *)
+(* tail is the fused sequence's tail).  margin = 1 is what the tool takes     *)
+(* (required); margin = 0 is the most that may be allowed.                    *)
+(***************************************************************************)
+TxExLen(t) == Cardinality({x \in SpanPos(t) : Exonic(t, x)})
+DonorExLen(t, lb) == Cardinality({x \in SpanPos(t) : Exonic(t, x) /\ UpTo(t, x, lb)})
+AccExStart(t, rb) == TxExLen(t) - Cardinality({x \in SpanPos(t) : Exonic(t, x) /\ UpTo(t, rb, x)})
+Fused(d, a) == DonorSeq(C.chrom, C.dtx[d], C.lb) \o AcceptorSeq(C.chrom, C.atx[a], C.rb)
+VRec(v, off) == [start |-> v.start + off, end |-> v.end + off, ref |-> v.ref, alt |-> v.alt, id |-> v.id]
+HasVars == "dvars" \in DOMAIN C
+FusedVars(d, a, margin) ==
+  IF ~HasVars THEN {}
+  ELSE LET ld == DonorExLen(C.dtx[d], C.lb)
+           as == AccExStart(C.atx[a], C.rb)
+           off == Len(Fused(d, a)) - TxExLen(C.atx[a])
+           sidx == IF C.dinfo[d].coding THEN C.dinfo[d].orfStart + 3 ELSE 3
+       IN {w \in {VRec(v, 0) : v \in {x \in ToSet(C.dvars[d]) : x.end <= ld - margin}} : Usable(w, sidx, <<0, 0>>)}
+          \cup {VRec(v, off) : v \in {x \in ToSet(C.avars[a]) : x.start >= as + margin}}
+FusedHaps(d, a, margin) ==
+  LET sidx == IF C.dinfo[d].coding THEN C.dinfo[d].orfStart + 3 ELSE 3
+  IN {H \in SUBSET FusedVars(d, a, margin) : Compatible(H, sidx)}
+FusedRefsOk(d, a) == \A v \in FusedVars(d, a, 0) : RefMatches(Fused(d, a), v)
+
 (* peptides of the fused sequence: from the donor's annotated start, or from every   *)
 (* ATG that begins before the junction when the donor is non-coding                  *)
 FusionPeptides(d, a) ==
-  LET dn == DonorSeq(C.chrom, C.dtx[d], C.lb)
-      s == dn \o AcceptorSeq(C.chrom, C.atx[a], C.rb)
-      starts == IF C.dinfo[d].coding THEN {C.dinfo[d].orfStart} ELSE AtgStarts(s)   \* any start of the fused sequence (the property only asks for a digestion product of it)
-  IN UNION {LET o == OrfOf(s, x, {}) IN OrfPeptides(o.pep, C.cfg, TRUE, o.open, FALSE) : x \in starts}
+  UNION {LET s == Apply(Fused(d, a), H)
+             starts == IF C.dinfo[d].coding THEN {C.dinfo[d].orfStart} ELSE AtgStarts(s)   \* any start of the fused sequence (the property only asks for a digestion product of it)
+         IN UNION {LET o == OrfOf(s, x, {}) IN OrfPeptides(o.pep, C.cfg, TRUE, o.open, FALSE) : x \in starts}
+         : H \in FusedHaps(d, a, 0)}
 
 (* completeness (C01 on fusion backbones, coding donors whose breakpoint lies after the start     *)
 (* codon): every peptide of the fused sequence read from the donor's annotated start, except      *)
@@ -37,9 +65,8 @@ DonorRef(d) == LET o == OrfOf(TxSeq(C.chrom, C.dtx[d]), C.dinfo[d].orfStart, {})
 AmbiguousBreak(t, lb) == ~Exonic(t, lb) /\ Exonic(t, IF t.strand = 1 THEN lb + 1 ELSE lb - 1)
 FusionRequired(d, a) ==
   IF ~C.dinfo[d].coding \/ Len(DonorSeq(C.chrom, C.dtx[d], C.lb)) < C.dinfo[d].orfStart + 3 \/ AmbiguousBreak(C.dtx[d], C.lb) THEN {}
-  ELSE LET s == DonorSeq(C.chrom, C.dtx[d], C.lb) \o AcceptorSeq(C.chrom, C.atx[a], C.rb)
-           o == OrfOf(s, C.dinfo[d].orfStart, {})
-       IN OrfPeptides(o.pep, C.cfg, TRUE, o.open, TRUE) \ (DonorRef(d) \cup Canonical)
+  ELSE UNION {LET o == OrfOf(Apply(Fused(d, a), H), C.dinfo[d].orfStart, {})
+              IN OrfPeptides(o.pep, C.cfg, TRUE, o.open, TRUE) : H \in FusedHaps(d, a, 1)} \ (DonorRef(d) \cup Canonical)
 AllObs == {C.allobs[k] : k \in 1..Len(C.allobs)}
 
 Verdict ==
@@ -48,6 +75,7 @@ Verdict ==
        (C.enough /\ C.known) => GotPairs = EligiblePairs /\ Len(C.records) = Cardinality(EligiblePairs))
   /\ Clause("positions",
        \A k \in 1..Len(C.records) : C.records[k].pos = DonorPos(C.gd, C.lb) /\ C.records[k].accpos = AcceptorPos(C.ga, C.rb))
+  /\ Clause("fusion_variant_refs", \A k \in 1..Len(C.records) : FusedRefsOk(C.records[k].d, C.records[k].a))
   /\ Clause("peptides_from_fused_sequence",
        \A k \in 1..Len(C.peps) : C.peps[k].seq \in FusionPeptides(C.peps[k].d, C.peps[k].a))
   /\ Clause("fusion_peptides_complete",
